@@ -17,11 +17,15 @@ FailsBounds(o) ==
              Check("bounds:order-bulk-2d", NonDecreasing(o.rK) /\ (OnePhase(o.K, o) => o.rK[2] = o.rK[3]))
              \cup Check("bounds:order-shear-2d", NonDecreasing(o.rG) /\ (OnePhase(o.G, o) => o.rG[2] = o.rG[3])))
 FailsBiphasic(o) ==
-  LET want == [i \in 1..4 |-> Biphasic(o)[i][1]] IN
-  Check("biphasic:non-finite", o.finite)
+  LET want == [i \in 1..4 |-> IF BiphasicOn(o)[i] THEN Biphasic(o)[i][1] ELSE 0]
+      ds == DiluteAdmissible(o) IN
+  Check("biphasic:non-finite", o.finite /\ (ds => o.finiteDS))
   \cup Check("biphasic:sphere-closed-form", o.tight /\ SeqEq(o.e, want))
-  \cup (IF IsSphere(o.shape) THEN Check("biphasic:ellipsoid-with-equal-axes-is-not-sphere", o.sphIso <= 1 /\ o.sphOri <= 1) ELSE {})
-  \cup (IF o.f = 0 \/ SamePhases2(o) THEN Check("biphasic:does-not-reduce-to-matrix", o.dMatrix <= 1) ELSE {})
+  \cup (IF IsSphere(o.shape)
+        THEN Check("biphasic:ellipsoid-with-equal-axes-is-not-sphere:mori-tanaka", o.sphIsoMT <= 1 /\ o.sphOriMT <= 1)
+             \cup (IF ds THEN Check("biphasic:ellipsoid-with-equal-axes-is-not-sphere:dilute", o.sphIsoDS <= 1 /\ o.sphOriDS <= 1) ELSE {})
+        ELSE {})
+  \cup (IF o.f = 0 \/ SamePhases2(o) THEN Check("biphasic:does-not-reduce-to-matrix", o.dMatrixMT <= 1 /\ o.dMatrixDS <= 1) ELSE {})
   \cup Check("biphasic:aligned-mori-tanaka-not-symmetric", o.symMT <= 1)
   \cup Check("biphasic:isotropic-mori-tanaka-outside-voigt-reuss", NonDecreasing(o.rK) /\ NonDecreasing(o.rG))
 \* ranks of <<HS lower, Mori-Tanaka, self-consistent, HS upper>>: estimate number i lies between the bounds
